@@ -28,7 +28,8 @@ RULE = ('case = (sequence of add_scu/add_scp calls, reply pattern); distinct = (
         'pattern); non-trivial = at least one class configured')
 ASSUMPTIONS = ['reply PDUs are built by the reference encoder and decoded by the library, as the provider would']
 REQUIRED = ['oracle.request-wellformed', 'oracle.usable-contexts', 'oracle.lookup', 'oracle.reject-reply',
-            'oracle.reply-in-another-order', 'oracle.last-context-ids', 'oracle.user-items-of-this-request']
+            'oracle.reply-in-another-order', 'oracle.last-context-ids', 'oracle.user-items-of-this-request',
+            'oracle.large-reply-over-transport', 'sim.transfer-syntaxes-per-call']
 
 TS4 = ['1.2.840.10008.1.2.1', '1.2.840.10008.1.2', '1.2.840.10008.1.2.2', '1.2.840.10008.1.2.4.50']
 POOL = ['1.2.840.10008.5.1.4.1.1.%d' % i for i in range(1, 200)]
@@ -43,6 +44,7 @@ def exhaustive(tier):
 def plan(tier, seed):
     specs = [{'name': 'patterns', 'n': n} for n in (0, 1, 2, 3, 4)]
     specs.append({'name': 'boundary'})
+    specs.append({'name': 'big-reply'})
     for part in chunked(range(NRANDOM[tier]), 11):
         if part:
             specs.append({'name': 'random', 'lo': part[0], 'hi': part[-1] + 1})
@@ -51,6 +53,10 @@ def plan(tier, seed):
 
 def run_shard(spec, tier, seed):
     res = Result()
+    if spec['name'] == 'big-reply':
+        from . import c11big
+        c11big.run(res)
+        return res
     if spec['name'] == 'patterns':
         n = spec['n']
         for results in itertools.product(range(5), repeat=n):
@@ -103,7 +109,8 @@ def run_shard(spec, tier, seed):
                     # the entity's transfer syntaxes (subset of four) and the order of the reply's items
                     'ts': r.choice([0b0111, 0b0111, r.randrange(1, 16)]),
                     'order': r.choice(['proposal', 'proposal', 'reversed', 'shuffled']),
-                    'max_late': r.random() < 0.25, 'user_data': r.random() < 0.25}
+                    'max_late': r.random() < 0.25, 'user_data': r.random() < 0.25,
+                    'retune_ts': r.random() < 0.25}
             case.update(reply)
             run_case(res, case)
     return res
@@ -111,6 +118,10 @@ def run_shard(spec, tier, seed):
 
 def replay(case):
     res = Result()
+    if case.get('big'):
+        from . import c11big
+        c11big.run(res, replay_case=case)
+        return res
     run_case(res, case)
     return res
 
@@ -122,9 +133,15 @@ def service(kind, classes):
     return fn
 
 
+TS_OF = {}      # (entity, class) -> transfer syntaxes the entity supported when the class was configured
+
+
 def run_case(res, case):
     from pynetdicom2 import applicationentity, asceprovider, exceptions, pdu as P
+    TS_OF.clear()
     res.evaluations += 1
+    if case.get('retune_ts'):
+        res.count('sim.transfer-syntaxes-per-call')
     calls = case['calls']
     full = case['ae'] == 'full' or any(c[0] == 'scp' for c in calls)
     max_len = case.get('max', 16384)
@@ -147,8 +164,13 @@ def run_case(res, case):
         if late:
             ae.max_pdu_length = max_len      # configured after construction (public attribute)
         try:
-            for kind, size, start in calls:
+            for nth, (kind, size, start) in enumerate(calls):
                 classes = POOL[start:start + size]
+                if case.get('retune_ts') and nth:
+                    # the classes of this call are to be proposed with another set of transfer syntaxes
+                    ae.supported_ts = frozenset(TS4[(nth + k) % 4] for k in range(1 + nth % 3))
+                for c in classes:
+                    TS_OF.setdefault((id(ae), c), []).append(sorted(str(t) for t in ae.supported_ts))
                 try:
                     if kind == 'ctx':
                         # the documented low-level call: contexts without a service of this entity
@@ -300,10 +322,11 @@ def judge(res, case, ae, configured, Stub, max_len, local_title, remote_title):
     stray = [n for n in names if n not in distinct_classes]
     if stray:
         res.violation('unconfigured-class-proposed', 'C11.request', '%s: %r' % (where, stray[:3]), case)
-    want_ts = sorted(str(t) for t in ae.supported_ts)
     for item in proposed:
         got = sorted(t['name'].decode() for t in item['ts'])
-        if got != want_ts:
+        # the set the entity supported when the class was configured
+        want_ts = TS_OF.get((id(ae), item['abstract']['name'].decode()), [sorted(str(t) for t in ae.supported_ts)])
+        if got not in want_ts:
             res.violation('transfer-syntaxes-differ', 'C11.request', '%s: context %d proposes %r, '
                           'configured %r' % (where, item['id'], got, want_ts), case)
             break
